@@ -93,4 +93,25 @@ def rawOk : List Op → Bool
 
 def lazyRaw (ops : List Op) : Bool := (segs ops).all rawOk
 
+/-- assumption check reported by the driver (`selOk` of the stage-wise model, here at every select
+    link of the trace semantics): the recorded results of `Path.test()` fit the items the link gets -/
+def traceSelOkFrom : List Op → BufF → List Act → Bool
+  | [], _, _ => true
+  | op :: ops, b, a =>
+      op.selOkAt (outsOf a) &&
+      (match linkU op (initCtl op) a with
+       | none => true
+       | some u => traceSelOkFrom ops b (resolve b u))
+
+def traceSelOkSeg (ops : List Op) (b : BufF) (s : MStream) : Bool :=
+  traceSelOkFrom ops (proBufs ops b) (outs s)
+
+def traceSelOk : List (List Op) → BufF → MStream → Bool
+  | [], _, _ => true
+  | seg :: ss, b, s =>
+      traceSelOkSeg seg b s &&
+      (match traceSeg seg b s with
+       | none => true
+       | some (s', b') => traceSelOk ss b' s')
+
 end Genshi.Tf
